@@ -51,25 +51,37 @@ use std::collections::{BTreeMap, BTreeSet, HashMap};
 use std::time::{Duration, Instant};
 
 const NCOLS: usize = 2;
-const VMAX: i64 = 5;
 
 #[derive(Clone, Debug, PartialEq)]
 enum Cond {
     All,
     Id(u64),
     Eq(usize, i64),
+    Ne(usize, i64),
     Lt(usize, i64),
     Le(usize, i64),
     Gt(usize, i64),
     Ge(usize, i64),
+    And(Box<Cond>, Box<Cond>),
+    Or(Box<Cond>, Box<Cond>),
 }
 
 impl Cond {
+    fn and(a: Cond, b: Cond) -> Cond {
+        Cond::And(Box::new(a), Box::new(b))
+    }
+    fn or(a: Cond, b: Cond) -> Cond {
+        Cond::Or(Box::new(a), Box::new(b))
+    }
     fn tok(&self) -> String {
         match self {
             Cond::All => "T".into(),
             Cond::Id(i) => format!("I:{i}"),
             Cond::Eq(c, v) => format!("E:{c}:{v}"),
+            Cond::Ne(c, v) => format!("N:{c}:{v}"),
+            // prefix notation, `/`-separated (no parentheses needed)
+            Cond::And(a, b) => format!("A/{}/{}", a.tok(), b.tok()),
+            Cond::Or(a, b) => format!("O/{}/{}", a.tok(), b.tok()),
             Cond::Lt(c, v) => format!("L:{c}:{v}"),
             Cond::Le(c, v) => format!("LE:{c}:{v}"),
             Cond::Gt(c, v) => format!("G:{c}:{v}"),
@@ -82,6 +94,9 @@ impl Cond {
             Cond::All => Condition::True,
             Cond::Id(i) => Condition::Eq("_id".into(), Value::Int(*i as i64)),
             Cond::Eq(c, v) => Condition::Eq(col(c), Value::Int(*v)),
+            Cond::Ne(c, v) => Condition::Ne(col(c), Value::Int(*v)),
+            Cond::And(a, b) => a.real().and(b.real()),
+            Cond::Or(a, b) => a.real().or(b.real()),
             Cond::Lt(c, v) => Condition::Lt(col(c), Value::Int(*v)),
             Cond::Le(c, v) => Condition::Le(col(c), Value::Int(*v)),
             Cond::Gt(c, v) => Condition::Gt(col(c), Value::Int(*v)),
@@ -95,10 +110,26 @@ impl Cond {
             Cond::All => true,
             Cond::Id(i) => id == *i,
             Cond::Eq(c, v) => g(c).is_some_and(|x| x == *v),
+            Cond::Ne(c, v) => g(c).is_none_or(|x| x != *v),
+            Cond::And(a, b) => a.holds(id, vals) && b.holds(id, vals),
+            Cond::Or(a, b) => a.holds(id, vals) || b.holds(id, vals),
             Cond::Lt(c, v) => g(c).is_some_and(|x| x < *v),
             Cond::Le(c, v) => g(c).is_some_and(|x| x <= *v),
             Cond::Gt(c, v) => g(c).is_some_and(|x| x > *v),
             Cond::Ge(c, v) => g(c).is_some_and(|x| x >= *v),
+        }
+    }
+}
+
+impl Cond {
+    /// the index `try_index_lookup` uses for this condition: (column, is_btree) — `And` takes the index of its left
+    /// side when that side is served, otherwise the one of its right side; `Or` / `Ne` / `_id` / `True` are scanned
+    fn served_by(&self, hash: &[usize], btree: &[usize]) -> Option<(usize, bool)> {
+        match self {
+            Cond::Eq(c, _) if hash.contains(c) => Some((*c, false)),
+            Cond::Lt(c, _) | Cond::Le(c, _) | Cond::Gt(c, _) | Cond::Ge(c, _) if btree.contains(c) => Some((*c, true)),
+            Cond::And(a, b) => a.served_by(hash, btree).or_else(|| b.served_by(hash, btree)),
+            _ => None,
         }
     }
 }
@@ -112,6 +143,7 @@ enum Op {
     TxInsert(usize, usize, Vec<i64>),
     TxUpdate(usize, usize, Cond, Vec<(usize, i64)>),
     TxDelete(usize, usize, Cond),
+    TxSelect(usize, usize, Cond),
     Insert(usize, Vec<i64>),
     Update(usize, Cond, Vec<(usize, i64)>),
     Delete(usize, Cond),
@@ -154,6 +186,7 @@ impl Op {
             Op::TxInsert(h, t, v) => format!("tx_insert {} {t} {}", tx(*h), vals_tok(v)),
             Op::TxUpdate(h, t, c, u) => format!("tx_update {} {t} {} {}", tx(*h), c.tok(), upd_tok(u)),
             Op::TxDelete(h, t, c) => format!("tx_delete {} {t} {}", tx(*h), c.tok()),
+            Op::TxSelect(h, t, c) => format!("tx_select {} {t} {}", tx(*h), c.tok()),
             Op::Insert(t, v) => format!("insert {t} {}", vals_tok(v)),
             Op::Update(t, c, u) => format!("update {t} {} {}", c.tok(), upd_tok(u)),
             Op::Delete(t, c) => format!("delete {t} {}", c.tok()),
@@ -176,6 +209,7 @@ impl Op {
             Op::TxInsert(..) => "tx_insert",
             Op::TxUpdate(..) => "tx_update",
             Op::TxDelete(..) => "tx_delete",
+            Op::TxSelect(..) => "tx_select",
             Op::Insert(..) => "insert",
             Op::Update(..) => "update",
             Op::Delete(..) => "delete_rows",
@@ -195,6 +229,8 @@ impl Op {
 struct Cfg {
     lock_secs: u64,
     tx_secs: u64,
+    /// rows hold values of `pool(cfg)`: negative numbers and both ends of i64 instead of 0..=5
+    wide: bool,
 }
 
 fn err_class(e: &RelationalError) -> String {
@@ -336,22 +372,24 @@ impl World {
     fn model_tx(&self, h: usize) -> String {
         self.handles.get(&h).map_or(format!("{}", 900_000 + h), |x| x.model.to_string())
     }
+    fn conv_rows(rows: &[relational_engine::Row]) -> Vec<(u64, Vec<i64>)> {
+        rows.iter()
+            .map(|r| {
+                (
+                    r.id,
+                    (0..NCOLS)
+                        .map(|c| match r.get(&format!("c{c}")) {
+                            Some(Value::Int(i)) => *i,
+                            _ => i64::MIN,
+                        })
+                        .collect(),
+                )
+            })
+            .collect()
+    }
     fn select_rows(&self, t: usize, c: &Cond) -> Result<Vec<(u64, Vec<i64>)>, String> {
         match self.eng.select(&Self::tname(t), c.real()) {
-            Ok(rows) => Ok(rows
-                .iter()
-                .map(|r| {
-                    (
-                        r.id,
-                        (0..NCOLS)
-                            .map(|c| match r.get(&format!("c{c}")) {
-                                Some(Value::Int(i)) => *i,
-                                _ => i64::MIN,
-                            })
-                            .collect(),
-                    )
-                })
-                .collect()),
+            Ok(rows) => Ok(Self::conv_rows(&rows)),
             Err(e) => Err(err_class(&e)),
         }
     }
@@ -442,6 +480,10 @@ impl World {
             },
             Op::TxUpdate(h, t, c, u) => res(self.eng.tx_update(self.real_tx(*h), &Self::tname(*t), c.real(), upd(u))),
             Op::TxDelete(h, t, c) => res(self.eng.tx_delete(self.real_tx(*h), &Self::tname(*t), c.real())),
+            Op::TxSelect(h, t, c) => match self.eng.tx_select(self.real_tx(*h), &Self::tname(*t), c.real()) {
+                Ok(rows) => format!("rows {}", rows_tok(&Self::conv_rows(&rows))),
+                Err(e) => format!("err {}", err_class(&e)),
+            },
             Op::Insert(t, v) => match self.eng.insert(&Self::tname(*t), row(v)) {
                 Ok(id) => format!("ok {id}"),
                 Err(e) => format!("err {}", err_class(&e)),
@@ -466,22 +508,53 @@ impl World {
     }
 }
 
-fn sweep_conds(hash: &[usize], btree: &[usize]) -> Vec<Cond> {
+/// the values a script's rows can hold: 0..=5, or — `Cfg::wide` — negative numbers and both ends of i64 (the b-tree
+/// keys are an offset hex encoding of the number; the hash buckets are keyed by its decimal text)
+const P6: &[i64] = &[0, 1, 2, 3, 4, 5];
+
+fn pool(cfg: Cfg) -> &'static [i64] {
+    if cfg.wide {
+        &[i64::MIN, -3, -1, 0, 2, i64::MAX]
+    } else {
+        P6
+    }
+}
+
+/// every query an index can serve over the value pool: Eq per hash-indexed column, ranges per b-tree-indexed
+/// column, and `And` conditions whose left or right side is served by an index (the other side is only re-checked)
+fn sweep_conds(hash: &[usize], btree: &[usize], pool: &[i64]) -> Vec<Cond> {
     let mut v = vec![];
     for c in hash {
-        for x in 0..=VMAX {
-            v.push(Cond::Eq(*c, x));
+        for x in pool {
+            v.push(Cond::Eq(*c, *x));
         }
     }
     for c in btree {
-        for x in 0..=VMAX {
-            v.push(Cond::Le(*c, x));
-            v.push(Cond::Ge(*c, x));
-            if x % 2 == 1 {
-                v.push(Cond::Lt(*c, x));
-                v.push(Cond::Gt(*c, x));
+        for (n, x) in pool.iter().enumerate() {
+            v.push(Cond::Le(*c, *x));
+            v.push(Cond::Ge(*c, *x));
+            if n % 2 == 1 {
+                v.push(Cond::Lt(*c, *x));
+                v.push(Cond::Gt(*c, *x));
             }
         }
+    }
+    let (lo, mid, hi) = (pool[1], pool[2], pool[4]);
+    for c in hash {
+        let o = (c + 1) % NCOLS;
+        v.push(Cond::and(Cond::Eq(*c, mid), Cond::Ne(o, mid)));
+        v.push(Cond::and(Cond::Ne(o, hi), Cond::Eq(*c, hi)));
+        v.push(Cond::and(Cond::or(Cond::Eq(o, lo), Cond::Ne(o, lo)), Cond::Eq(*c, lo)));
+    }
+    for c in btree {
+        let o = (c + 1) % NCOLS;
+        v.push(Cond::and(Cond::Ge(*c, lo), Cond::Le(*c, hi)));
+        v.push(Cond::and(Cond::Ne(o, mid), Cond::Lt(*c, hi)));
+        v.push(Cond::and(Cond::Gt(*c, lo), Cond::or(Cond::Eq(o, mid), Cond::Ge(o, hi))));
+    }
+    if let (Some(c), Some(b)) = (hash.first(), btree.first()) {
+        v.push(Cond::and(Cond::Eq(*c, mid), Cond::Ge(*b, lo)));
+        v.push(Cond::and(Cond::Ge(*b, lo), Cond::Eq(*c, mid)));
     }
     v
 }
@@ -498,7 +571,7 @@ fn exec_script(ops: &[Op], cfg: Cfg, mut model: Option<&mut Model>) -> Outcome {
             return out;
         }
     }
-    let script_json = || json!({"cfg": {"lock_timeout_secs": cfg.lock_secs, "transaction_timeout_secs": cfg.tx_secs},
+    let script_json = || json!({"cfg": {"lock_timeout_secs": cfg.lock_secs, "transaction_timeout_secs": cfg.tx_secs, "wide_values": cfg.wide},
                                  "script": ops.iter().map(|o| o.show()).collect::<Vec<_>>()});
     let cmp = |out: &mut Outcome, stream: &str, step: usize, what: &str, imp: &str, mdl: &str| -> bool {
         *out.compared.entry(stream.to_string()).or_insert(0) += 1;
@@ -565,7 +638,7 @@ fn exec_script(ops: &[Op], cfg: Cfg, mut model: Option<&mut Model>) -> Outcome {
                 w.handles.insert(*h, new_hd(rid, 0, w.vnow));
             }
         }
-        let ok = r_real.starts_with("ok") || r_real.starts_with("begin");
+        let ok = r_real.starts_with("ok") || r_real.starts_with("begin") || r_real.starts_with("rows");
         out.hit(&format!("op:{site}:{}", if ok { "ok".to_string() } else { r_real.replace("err ", "") }));
         if ok {
             if let Op::CreateIndex(t, c) | Op::CreateBtree(t, c) = op {
@@ -725,6 +798,34 @@ fn exec_script(ops: &[Op], cfg: Cfg, mut model: Option<&mut Model>) -> Outcome {
                         hd.interfered.extend(meddled.iter().copied());
                     }
                 }
+            }
+        }
+        if let Op::TxSelect(h, t, c) = op {
+            // the read side of the phase check: a finished / unknown transaction cannot read, an open one reads exactly
+            // what `select` answers (no snapshot, no read lock), and reading changes nothing
+            let usable = w.handles.get(h).is_some_and(|x| x.state == HState::Active);
+            if !usable && ok {
+                out.viol("relational_engine.tx/finished_tx_accepted".into(),
+                         format!("{} answered for a transaction that is not open", op.show()), step);
+            }
+            if !diff.is_empty() {
+                out.viol("relational_engine.tx_select/changed_rows".into(), format!("{} changed {:?}", op.show(), diff), step);
+            }
+            if usable && *t < w.ntables {
+                out.hit("tx_select_by_open_tx");
+                match w.select_rows(*t, c) {
+                    Ok(rows) => {
+                        let want = format!("rows {}", rows_tok(&rows));
+                        if r_real != want {
+                            out.viol("relational_engine.tx_select/differs_from_select".into(),
+                                     format!("{} = [{r_real}], select of the same condition = [{want}]", op.show()), step);
+                        }
+                    },
+                    Err(e) => out.viol("relational_engine.tx_select/differs_from_select".into(),
+                                       format!("{} = [{r_real}], select of the same condition fails with {e}", op.show()), step),
+                }
+            } else if !usable {
+                out.hit("tx_select_by_finished_tx");
             }
         }
         let mut ended: Option<usize> = None;
@@ -973,12 +1074,15 @@ fn exec_script(ops: &[Op], cfg: Cfg, mut model: Option<&mut Model>) -> Outcome {
             // index oracle after EVERY statement (real engine only, whether or not the model still agrees): an
             // index-served answer is the filter of the full-scan image.  Model comparison of the same answers on
             // `full` steps.
-            for c in sweep_conds(&hc, &bc) {
-                let key = match &c {
-                    Cond::Eq(col, _) => (t, *col, false),
-                    Cond::Lt(col, _) | Cond::Le(col, _) | Cond::Gt(col, _) | Cond::Ge(col, _) => (t, *col, true),
-                    _ => (t, usize::MAX, false),
+            for c in sweep_conds(&hc, &bc, pool(cfg)) {
+                // the index that serves this condition (`And`: the first served side)
+                let key = match c.served_by(&hc, &bc) {
+                    Some((col, bt)) => (t, col, bt),
+                    None => (t, usize::MAX, false),
                 };
+                if matches!(c, Cond::And(..)) {
+                    out.hit(if key.2 { "and_condition_served_by_btree_index" } else { "and_condition_served_by_hash_index" });
+                }
                 let real = w.select_rows(t, &c);
                 let want: Vec<(u64, Vec<i64>)> = after[t].iter().filter(|(id, v)| c.holds(**id, v)).map(|(k, v)| (*k, v.clone())).collect();
                 if let Ok(got) = &real {
@@ -1087,6 +1191,22 @@ fn exec_script(ops: &[Op], cfg: Cfg, mut model: Option<&mut Model>) -> Outcome {
                     }
                 }
             }
+            {
+                // active_transaction_count: exactly the transactions begun through the API and not yet ended (the
+                // internal transaction of a non-transactional statement ends inside the call)
+                let n_real = w.eng.active_transaction_count();
+                let n_open = w.handles.values().filter(|h| h.state == HState::Active).count();
+                if n_real != n_open {
+                    out.viol("relational_engine.active_transaction_count/wrong_count".into(),
+                             format!("after {}: active_transaction_count = {n_real}, open transactions = {n_open}", op.show()), step);
+                }
+                if let Some(m) = mdl!() {
+                    let a = m.ask("nactive");
+                    if !cmp(&mut out, "locks", step, "nactive", &format!("n {n_real}"), &a) {
+                        diverged = true;
+                    }
+                }
+            }
             if let Some(m) = mdl!() {
                 let a = m.ask("nlocks");
                 let r = format!("n {}", w.eng.tx_manager().active_lock_count());
@@ -1122,27 +1242,46 @@ fn new_hd(real: u64, model: u64, now: u64) -> Hd {
 
 // ------------------------------------------------------------------ generators
 
-fn gen_cond(rng: &mut Rng, maxid: u64) -> Cond {
+/// one comparison (or `_id` lookup, or `True`) over the value pool
+fn gen_atom(rng: &mut Rng, maxid: u64, pool: &[i64]) -> Cond {
     let c = rng.below(NCOLS as u64) as usize;
-    let v = rng.range(0, VMAX);
-    match rng.below(12) {
+    let v = *rng.pick(pool);
+    match rng.below(13) {
         0..=4 => Cond::Id(1 + rng.below(maxid.max(1))),
         5..=6 => Cond::Eq(c, v),
         7 => Cond::Lt(c, v),
         8 => Cond::Le(c, v),
         9 => Cond::Gt(c, v),
         10 => Cond::Ge(c, v),
+        11 => Cond::Ne(c, v),
         _ => Cond::All,
     }
 }
-fn gen_vals(rng: &mut Rng) -> Vec<i64> {
-    (0..NCOLS).map(|_| rng.range(0, VMAX)).collect()
+/// a condition: mostly one comparison; one in five is an `And` / `Or` (sometimes nested) — the set of rows a
+/// statement locks and changes is whatever the whole condition matches
+fn gen_cond(rng: &mut Rng, maxid: u64, pool: &[i64]) -> Cond {
+    match rng.below(15) {
+        0 => Cond::and(gen_atom(rng, maxid, pool), gen_atom(rng, maxid, pool)),
+        1 => Cond::or(gen_atom(rng, maxid, pool), gen_atom(rng, maxid, pool)),
+        2 => {
+            let inner = if rng.chance(1, 2) {
+                Cond::or(gen_atom(rng, maxid, pool), gen_atom(rng, maxid, pool))
+            } else {
+                Cond::and(gen_atom(rng, maxid, pool), gen_atom(rng, maxid, pool))
+            };
+            if rng.chance(1, 2) { Cond::and(inner, gen_atom(rng, maxid, pool)) } else { Cond::or(gen_atom(rng, maxid, pool), inner) }
+        },
+        _ => gen_atom(rng, maxid, pool),
+    }
 }
-fn gen_upd(rng: &mut Rng) -> Vec<(usize, i64)> {
+fn gen_vals(rng: &mut Rng, pool: &[i64]) -> Vec<i64> {
+    (0..NCOLS).map(|_| *rng.pick(pool)).collect()
+}
+fn gen_upd(rng: &mut Rng, pool: &[i64]) -> Vec<(usize, i64)> {
     match rng.below(4) {
-        0 => vec![(0, rng.range(0, VMAX)), (1, rng.range(0, VMAX))],
-        1 => vec![(1, rng.range(0, VMAX))],
-        _ => vec![(0, rng.range(0, VMAX))],
+        0 => vec![(0, *rng.pick(pool)), (1, *rng.pick(pool))],
+        1 => vec![(1, *rng.pick(pool))],
+        _ => vec![(0, *rng.pick(pool))],
     }
 }
 
@@ -1252,7 +1391,7 @@ impl Sim {
     /// an update by `h` (None = non-transactional) that assigns an INDEXED column (any column when the table has no
     /// index) of a row `h` may write the value that row holds right now; the second column, when named, gets its
     /// current value too or a random one
-    fn same_value_update(&self, rng: &mut Rng, h: Option<usize>, t: usize) -> Option<(Cond, Vec<(usize, i64)>)> {
+    fn same_value_update(&self, rng: &mut Rng, h: Option<usize>, t: usize, pool: &[i64]) -> Option<(Cond, Vec<(usize, i64)>)> {
         let free: Vec<(u64, Vec<i64>)> = self.rows.get(t)?.iter()
             .filter(|(id, _)| self.owner.get(&(t, **id)).is_none_or(|o| Some(*o) == h))
             .map(|(id, v)| (*id, v.clone())).collect();
@@ -1265,7 +1404,7 @@ impl Sim {
         let other = (c + 1) % NCOLS;
         let mut upd = match rng.below(4) {
             0 => vec![(c, vals[c]), (other, vals[other])],
-            1 => vec![(c, vals[c]), (other, rng.range(0, VMAX))],
+            1 => vec![(c, vals[c]), (other, *rng.pick(pool))],
             _ => vec![(c, vals[c])],
         };
         upd.sort();
@@ -1281,7 +1420,7 @@ impl Sim {
 
 /// random script: setup (tables, indexes, committed rows), 2-4 interleaved transactions, all ended at the end.
 /// One update in four is aimed (`Sim::same_value_update`) at writing an indexed column back with its current value.
-fn gen_script(rng: &mut Rng, len: usize, ddl: bool) -> Vec<Op> {
+fn gen_script(rng: &mut Rng, len: usize, ddl: bool, pool: &[i64]) -> Vec<Op> {
     let mut sim = Sim::default();
     let mut synced = 0usize;
     let mut ops = vec![Op::CreateTable];
@@ -1300,7 +1439,7 @@ fn gen_script(rng: &mut Rng, len: usize, ddl: bool) -> Vec<Op> {
             }
         }
         for _ in 0..rng.range(1, 4) {
-            ops.push(Op::Insert(t, gen_vals(rng)));
+            ops.push(Op::Insert(t, gen_vals(rng, pool)));
             approx_rows[t] += 1;
         }
     }
@@ -1324,17 +1463,17 @@ fn gen_script(rng: &mut Rng, len: usize, ddl: bool) -> Vec<Op> {
         let h = *rng.pick(&open);
         match roll {
             0..=26 => {
-                let aimed = if rng.chance(1, 4) { sim.same_value_update(rng, Some(h), t) } else { None };
+                let aimed = if rng.chance(1, 4) { sim.same_value_update(rng, Some(h), t, pool) } else { None };
                 match aimed {
                     Some((c, u)) => ops.push(Op::TxUpdate(h, t, c, u)),
-                    None => ops.push(Op::TxUpdate(h, t, gen_cond(rng, approx_rows[t]), gen_upd(rng))),
+                    None => ops.push(Op::TxUpdate(h, t, gen_cond(rng, approx_rows[t], pool), gen_upd(rng, pool))),
                 }
             },
             27..=41 => {
-                ops.push(Op::TxInsert(h, t, gen_vals(rng)));
+                ops.push(Op::TxInsert(h, t, gen_vals(rng, pool)));
                 approx_rows[t] += 1;
             },
-            42..=52 => ops.push(Op::TxDelete(h, t, gen_cond(rng, approx_rows[t]))),
+            42..=52 => ops.push(Op::TxDelete(h, t, gen_cond(rng, approx_rows[t], pool))),
             53..=60 => {
                 ops.push(Op::Commit(h));
                 open.retain(|x| *x != h);
@@ -1346,17 +1485,17 @@ fn gen_script(rng: &mut Rng, len: usize, ddl: bool) -> Vec<Op> {
                 finished.push(h);
             },
             73..=77 => {
-                ops.push(Op::Insert(t, gen_vals(rng)));
+                ops.push(Op::Insert(t, gen_vals(rng, pool)));
                 approx_rows[t] += 1;
             },
             78..=82 => {
-                let aimed = if rng.chance(1, 4) { sim.same_value_update(rng, None, t) } else { None };
+                let aimed = if rng.chance(1, 4) { sim.same_value_update(rng, None, t, pool) } else { None };
                 match aimed {
                     Some((c, u)) => ops.push(Op::Update(t, c, u)),
-                    None => ops.push(Op::Update(t, gen_cond(rng, approx_rows[t]), gen_upd(rng))),
+                    None => ops.push(Op::Update(t, gen_cond(rng, approx_rows[t], pool), gen_upd(rng, pool))),
                 }
             },
-            83..=85 => ops.push(Op::Delete(t, gen_cond(rng, approx_rows[t]))),
+            83..=85 => ops.push(Op::Delete(t, gen_cond(rng, approx_rows[t], pool))),
             86..=91 => {
                 if ddl {
                     let c = rng.below(NCOLS as u64) as usize;
@@ -1373,16 +1512,32 @@ fn gen_script(rng: &mut Rng, len: usize, ddl: bool) -> Vec<Op> {
             92..=95 => {
                 // finished / never-begun transaction
                 let g = if !finished.is_empty() && rng.chance(3, 4) { *rng.pick(&finished) } else { 77 };
-                ops.push(match rng.below(5) {
+                ops.push(match rng.below(6) {
                     0 => Op::Commit(g),
                     1 => Op::Rollback(g),
-                    2 => Op::TxInsert(g, t, gen_vals(rng)),
-                    3 => Op::TxUpdate(g, t, Cond::All, gen_upd(rng)),
+                    2 => Op::TxInsert(g, t, gen_vals(rng, pool)),
+                    3 => Op::TxUpdate(g, t, Cond::All, gen_upd(rng, pool)),
+                    4 => Op::TxSelect(g, t, gen_cond(rng, approx_rows[t], pool)),
                     _ => Op::TxDelete(g, t, Cond::All),
                 });
             },
-            96 => ops.push(Op::TxUpdate(h, 9, Cond::All, gen_upd(rng))),
-            97 => ops.push(Op::TxUpdate(h, t, Cond::All, vec![(7, 1)])),
+            // statements that must fail as a whole and change nothing: unknown table, unknown column, a row without
+            // one of its (non-nullable) columns — transactional and non-transactional
+            96 => ops.push(match rng.below(6) {
+                0 => Op::TxUpdate(h, 9, Cond::All, gen_upd(rng, pool)),
+                1 => Op::TxInsert(h, 9, gen_vals(rng, pool)),
+                2 => Op::TxDelete(h, 9, gen_cond(rng, 3, pool)),
+                3 => Op::Update(9, Cond::All, gen_upd(rng, pool)),
+                4 => Op::Delete(9, Cond::All),
+                _ => Op::Insert(9, gen_vals(rng, pool)),
+            }),
+            97 => ops.push(match rng.below(5) {
+                0 | 1 => Op::TxUpdate(h, t, Cond::All, vec![(7, 1)]),
+                2 => Op::Update(t, Cond::All, vec![(7, 1)]),
+                3 => Op::TxInsert(h, t, vec![*rng.pick(pool)]),
+                _ => Op::Insert(t, vec![*rng.pick(pool)]),
+            }),
+            98 => ops.push(Op::TxSelect(h, t, gen_cond(rng, approx_rows[t], pool))),
             _ => ops.push(Op::Sweep),
         }
     }
@@ -1397,9 +1552,9 @@ fn gen_script(rng: &mut Rng, len: usize, ddl: bool) -> Vec<Op> {
 /// hand-written scenarios (run first): the suspected holes and the basic contract
 fn directed() -> Vec<(&'static str, Cfg, Vec<Op>)> {
     use Op::*;
-    let long = Cfg { lock_secs: 30, tx_secs: 60 };
-    let short = Cfg { lock_secs: 1, tx_secs: 60 };
-    let short_tx = Cfg { lock_secs: 1, tx_secs: 1 };
+    let long = Cfg { lock_secs: 30, tx_secs: 60, wide: false };
+    let short = Cfg { lock_secs: 1, tx_secs: 60, wide: false };
+    let short_tx = Cfg { lock_secs: 1, tx_secs: 1, wide: false };
     let base = |idx: bool| {
         let mut v = vec![CreateTable];
         if idx {
@@ -1442,6 +1597,53 @@ fn directed() -> Vec<(&'static str, Cfg, Vec<Op>)> {
         s.extend(body);
         out.push((name, long, s));
     }
+    // compound conditions: the rows a statement locks and changes are the rows the WHOLE condition matches — an `And`
+    // narrows, an `Or` widens; a conflict on one matched row leaves every other matched row untouched and unlocked
+    let mut s = base(true);
+    s.extend([Begin(0), Begin(1),
+              TxUpdate(0, 0, Cond::and(Cond::Eq(0, 1), Cond::Ge(1, 1)), vec![(1, 4)]),
+              TxUpdate(1, 0, Cond::or(Cond::Eq(0, 1), Cond::Eq(0, 3)), vec![(1, 0)]),
+              TxUpdate(1, 0, Cond::and(Cond::Ne(0, 1), Cond::or(Cond::Le(1, 2), Cond::Id(1))), vec![(1, 5)]),
+              TxDelete(1, 0, Cond::and(Cond::Ne(0, 1), Cond::Gt(1, 2))),
+              TxDelete(0, 0, Cond::or(Cond::Id(3), Cond::Lt(0, 0))),
+              TxUpdate(0, 0, Cond::Ne(1, 9), vec![(0, 2)]),
+              Update(0, Cond::and(Cond::Ge(0, 2), Cond::Le(0, 2)), vec![(1, 1)]),
+              Delete(0, Cond::or(Cond::Id(1), Cond::Id(2))),
+              Sweep, Rollback(1), TxUpdate(0, 0, Cond::or(Cond::Id(2), Cond::Id(3)), vec![(0, 0)]), Sweep, Rollback(0), Sweep]);
+    out.push(("compound_condition_lock_set", long, s));
+    // `And` answered through an index (left side hash, right side b-tree, both) before / after writes and rollback
+    let mut s = sv_base();
+    s.extend([Sweep, Begin(0), TxUpdate(0, 0, Cond::and(Cond::Eq(0, 1), Cond::Ge(1, 4)), vec![(0, 2), (1, 5)]),
+              TxDelete(0, 0, Cond::and(Cond::Ne(0, 1), Cond::Le(1, 4))), TxInsert(0, 0, vec![2, 4]),
+              TxSelect(0, 0, Cond::and(Cond::Eq(0, 2), Cond::Ge(1, 4))), TxSelect(0, 0, Cond::and(Cond::Ne(1, 3), Cond::Eq(0, 2))),
+              Sweep, Rollback(0), Sweep]);
+    out.push(("and_condition_through_index_rollback", long, s));
+    // tx_select: an open transaction reads what `select` answers (its own and other transactions' uncommitted work
+    // included); a committed / rolled-back / never-begun transaction id is refused
+    let mut s = base(true);
+    s.extend([Begin(0), TxSelect(0, 0, Cond::All), TxUpdate(0, 0, Cond::Id(1), vec![(0, 4)]), TxInsert(0, 0, vec![4, 4]),
+              TxSelect(0, 0, Cond::and(Cond::Eq(0, 4), Cond::Ge(1, 0))), Begin(1), TxSelect(1, 0, Cond::Ge(0, 4)), TxSelect(1, 9, Cond::All),
+              TxDelete(1, 0, Cond::Id(2)), TxSelect(0, 0, Cond::All), Commit(0), TxSelect(0, 0, Cond::All), TxSelect(1, 0, Cond::Eq(0, 4)),
+              Rollback(1), TxSelect(1, 0, Cond::All), TxSelect(77, 0, Cond::All), Sweep]);
+    out.push(("tx_select_open_and_finished", long, s));
+    // every way a statement can fail: it fails as a whole, changes no row, no index entry, no lock
+    let mut s = base(true);
+    s.extend([Begin(0), TxUpdate(0, 0, Cond::Id(1), vec![(0, 4)]),
+              TxInsert(0, 9, vec![1, 1]), TxInsert(0, 0, vec![1]), TxUpdate(0, 0, Cond::All, vec![(7, 1)]), TxUpdate(0, 9, Cond::All, vec![(0, 1)]),
+              TxDelete(0, 9, Cond::All), Insert(0, vec![1]), Insert(9, vec![1, 1]), Update(9, Cond::All, vec![(0, 1)]),
+              Update(0, Cond::All, vec![(7, 1)]), Delete(9, Cond::All), Begin(1),
+              TxUpdate(1, 0, Cond::All, vec![(1, 0)]), TxDelete(1, 0, Cond::Ge(0, 0)), Update(0, Cond::All, vec![(1, 0)]), Delete(0, Cond::Ne(1, 9)),
+              TxSelect(1, 0, Cond::All), Sweep, Rollback(0), Commit(1), Sweep]);
+    out.push(("failed_statements_change_nothing", long, s));
+    // values outside 0..5: negative numbers and both ends of i64 in hash buckets and b-tree keys
+    let wide = Cfg { lock_secs: 30, tx_secs: 60, wide: true };
+    let mut s = vec![CreateTable, CreateIndex(0, 0), CreateBtree(0, 0), CreateBtree(0, 1),
+                     Insert(0, vec![i64::MIN, i64::MAX]), Insert(0, vec![-1, 0]), Insert(0, vec![0, -1]), Insert(0, vec![i64::MAX, i64::MIN]),
+                     Insert(0, vec![-3, 2]), Sweep];
+    s.extend([Begin(0), TxUpdate(0, 0, Cond::Lt(0, 0), vec![(0, i64::MAX)]), TxDelete(0, 0, Cond::and(Cond::Ge(1, 0), Cond::Ne(0, i64::MAX))),
+              TxInsert(0, 0, vec![i64::MIN, i64::MIN]), TxUpdate(0, 0, Cond::Eq(0, i64::MAX), vec![(1, -3)]), Sweep, Rollback(0), Sweep,
+              Begin(1), TxUpdate(1, 0, Cond::Id(1), vec![(0, -1), (1, -1)]), TxDelete(1, 0, Cond::Le(0, -3)), Commit(1), Sweep]);
+    out.push(("extreme_values_hash_and_btree", wide, s));
     // both index kinds on the SAME column (hash c0 + b-tree c0 + b-tree c1)
     let mut s = base(true);
     s.extend([Begin(0), TxUpdate(0, 0, Cond::Id(1), vec![(0, 1)]), TxUpdate(0, 0, Cond::All, vec![(1, 2)]), Sweep, Rollback(0), Sweep]);
@@ -1452,7 +1654,7 @@ fn directed() -> Vec<(&'static str, Cfg, Vec<Op>)> {
     // cleanup_expired (lock 2 s / tx 3 s: A times out at 3.2 s while B's 1.1 s old locks are fresh); after every
     // statement the foreign-lock oracle requires B to still hold its rows; C = h2 and non-transactional statements on
     // B's rows must get a lock conflict; B's rollback puts back what B found; then C gets through.
-    let slow = Cfg { lock_secs: 2, tx_secs: 3 };
+    let slow = Cfg { lock_secs: 2, tx_secs: 3, wide: false };
     for (name, cfg, first_tick, end_a) in [
         ("takeover_old_holder_commits", short, 1100u64, vec![Commit(0)]),
         ("takeover_old_holder_rolls_back", short, 1100, vec![Rollback(0)]),
@@ -1541,10 +1743,10 @@ fn directed() -> Vec<(&'static str, Cfg, Vec<Op>)> {
 
 /// short timeout scripts: 2 transactions, writes, one or two ticks, sweeps
 fn gen_timeout_script(rng: &mut Rng) -> (Cfg, Vec<Op>) {
-    let cfg = if rng.chance(1, 3) { Cfg { lock_secs: 1, tx_secs: 1 } } else { Cfg { lock_secs: 1, tx_secs: 60 } };
+    let cfg = if rng.chance(1, 3) { Cfg { lock_secs: 1, tx_secs: 1, wide: false } } else { Cfg { lock_secs: 1, tx_secs: 60, wide: false } };
     let mut ops = vec![Op::CreateTable, Op::CreateIndex(0, 0), Op::CreateBtree(0, 1)];
     for _ in 0..3 {
-        ops.push(Op::Insert(0, gen_vals(rng)));
+        ops.push(Op::Insert(0, gen_vals(rng, P6)));
     }
     ops.extend([Op::Begin(0), Op::Begin(1)]);
     let mut ticks = 0;
@@ -1555,9 +1757,9 @@ fn gen_timeout_script(rng: &mut Rng) -> (Cfg, Vec<Op>) {
         }
         let h = *rng.pick(&open);
         match rng.below(12) {
-            0..=4 => ops.push(Op::TxUpdate(h, 0, gen_cond(rng, 4), gen_upd(rng))),
-            5 => ops.push(Op::TxDelete(h, 0, gen_cond(rng, 4))),
-            6 => ops.push(Op::TxInsert(h, 0, gen_vals(rng))),
+            0..=4 => ops.push(Op::TxUpdate(h, 0, gen_cond(rng, 4, P6), gen_upd(rng, P6))),
+            5 => ops.push(Op::TxDelete(h, 0, gen_cond(rng, 4, P6))),
+            6 => ops.push(Op::TxInsert(h, 0, gen_vals(rng, P6))),
             7..=8 if ticks < 2 => {
                 ops.push(Op::Tick(1100));
                 ticks += 1;
@@ -1568,7 +1770,7 @@ fn gen_timeout_script(rng: &mut Rng) -> (Cfg, Vec<Op>) {
                 ops.push(if rng.chance(1, 2) { Op::Commit(h) } else { Op::Rollback(h) });
                 open.retain(|x| *x != h);
             },
-            _ => ops.push(Op::Update(0, gen_cond(rng, 4), gen_upd(rng))),
+            _ => ops.push(Op::Update(0, gen_cond(rng, 4, P6), gen_upd(rng, P6))),
         }
     }
     for h in open {
@@ -1583,21 +1785,21 @@ fn gen_timeout_script(rng: &mut Rng) -> (Cfg, Vec<Op>) {
 /// B and C end in random order
 fn gen_takeover_script(rng: &mut Rng) -> (Cfg, Vec<Op>) {
     let cleanup = rng.chance(1, 5);
-    let cfg = if cleanup { Cfg { lock_secs: 2, tx_secs: 3 } } else { Cfg { lock_secs: 1, tx_secs: 60 } };
+    let cfg = if cleanup { Cfg { lock_secs: 2, tx_secs: 3, wide: false } } else { Cfg { lock_secs: 1, tx_secs: 60, wide: false } };
     let mut ops = vec![Op::CreateTable, Op::CreateIndex(0, 0), Op::CreateBtree(0, 1)];
     for _ in 0..3 {
-        ops.push(Op::Insert(0, gen_vals(rng)));
+        ops.push(Op::Insert(0, gen_vals(rng, P6)));
     }
     let write = |rng: &mut Rng, h: usize, wide: bool| -> Op {
-        let c = if wide && rng.chance(1, 3) { Cond::All } else { gen_cond(rng, 4) };
+        let c = if wide && rng.chance(1, 3) { Cond::All } else { gen_cond(rng, 4, P6) };
         match rng.below(8) {
-            0..=4 => Op::TxUpdate(h, 0, c, gen_upd(rng)),
+            0..=4 => Op::TxUpdate(h, 0, c, gen_upd(rng, P6)),
             5..=6 => Op::TxDelete(h, 0, c),
-            _ => Op::TxInsert(h, 0, gen_vals(rng)),
+            _ => Op::TxInsert(h, 0, gen_vals(rng, P6)),
         }
     };
     ops.push(Op::Begin(0));
-    ops.push(Op::TxUpdate(0, 0, if rng.chance(1, 2) { Cond::All } else { gen_cond(rng, 3) }, gen_upd(rng)));
+    ops.push(Op::TxUpdate(0, 0, if rng.chance(1, 2) { Cond::All } else { gen_cond(rng, 3, P6) }, gen_upd(rng, P6)));
     for _ in 0..rng.below(3) {
         ops.push(write(rng, 0, true));
     }
@@ -1623,7 +1825,7 @@ fn gen_takeover_script(rng: &mut Rng) -> (Cfg, Vec<Op>) {
         ops.push(write(rng, 2, true));
     }
     if rng.chance(1, 2) {
-        ops.push(if rng.chance(1, 2) { Op::Update(0, gen_cond(rng, 4), gen_upd(rng)) } else { Op::Delete(0, gen_cond(rng, 4)) });
+        ops.push(if rng.chance(1, 2) { Op::Update(0, gen_cond(rng, 4, P6), gen_upd(rng, P6)) } else { Op::Delete(0, gen_cond(rng, 4, P6)) });
     }
     if rng.chance(1, 3) {
         ops.push(Op::CleanupLocks);
@@ -1709,7 +1911,7 @@ fn absorb(rep: &mut Report, tally: &mut Tally, stream: &str, cfg: Cfg, ops: &[Op
             exec_script(&script, cfg, None).violations.into_iter().find(|v| v.0 == class).map(|v| v.1).unwrap_or(what)
         };
         rep.violation(&class, &what2, json!({
-            "cfg": {"lock_timeout_secs": cfg.lock_secs, "transaction_timeout_secs": cfg.tx_secs},
+            "cfg": {"lock_timeout_secs": cfg.lock_secs, "transaction_timeout_secs": cfg.tx_secs, "wide_values": cfg.wide},
             "script": script.iter().map(|o| o.show()).collect::<Vec<_>>(),
         }));
     }
@@ -1724,7 +1926,7 @@ fn main() {
     let mut model = Model::spawn(&args.driver);
     let mut tally = Tally { per_class: BTreeMap::new() };
     let root = Rng::new(args.seed);
-    let long = Cfg { lock_secs: 30, tx_secs: 60 };
+    let long = Cfg { lock_secs: 30, tx_secs: 60, wide: false };
 
     // 1. directed scenarios (the ones with real sleeps run concurrently on their own engines / model processes; the
     //    random sleeping scripts of streams 4 and 5 are started now as well and collected at the end)
@@ -1792,7 +1994,7 @@ fn main() {
     let n = if args.thorough { 6000 } else { 450 };
     for i in 0..n {
         let len = rng.range(8, 34) as usize;
-        let ops = gen_script(&mut rng, len, false);
+        let ops = gen_script(&mut rng, len, false, P6);
         let out = exec_script(&ops, long, Some(&mut model));
         if i < 3 {
             rep.sample(json!({"stream": "interleave", "script": ops.iter().map(|o| o.show()).collect::<Vec<_>>()}));
@@ -1804,12 +2006,25 @@ fn main() {
     let n = if args.thorough { 4000 } else { 350 };
     for i in 0..n {
         let len = rng.range(8, 34) as usize;
-        let ops = gen_script(&mut rng, len, true);
+        let ops = gen_script(&mut rng, len, true, P6);
         let out = exec_script(&ops, long, Some(&mut model));
         if i < 2 {
             rep.sample(json!({"stream": "interleave_ddl", "script": ops.iter().map(|o| o.show()).collect::<Vec<_>>()}));
         }
         absorb(&mut rep, &mut tally, "interleave_ddl", long, &ops, out, true);
+    }
+    // 3b. the same with values outside 0..5: negative numbers, i64::MIN / i64::MAX
+    let wide = Cfg { lock_secs: 30, tx_secs: 60, wide: true };
+    let mut rng = root.fork("interleave_wide");
+    let n = if args.thorough { 1500 } else { 100 };
+    for i in 0..n {
+        let len = rng.range(8, 30) as usize;
+        let ops = gen_script(&mut rng, len, i % 2 == 1, pool(wide));
+        let out = exec_script(&ops, wide, Some(&mut model));
+        if i < 1 {
+            rep.sample(json!({"stream": "interleave_wide", "script": ops.iter().map(|o| o.show()).collect::<Vec<_>>()}));
+        }
+        absorb(&mut rep, &mut tally, "interleave_wide", wide, &ops, out, true);
     }
     // 4. lock / transaction timeouts, 5. lock takeover with the old holder ending first (real sleeps; started above)
     let mut outs = rnd_sleepers.join().expect("random sleepers panicked");
@@ -1828,7 +2043,12 @@ fn main() {
         "op:commit:ok", "op:commit:tx_not_found", "op:rollback:ok", "op:rollback:tx_not_found", "op:rollback:rollback_failed",
         "op:tx_insert:ok", "op:tx_insert:tx_not_found", "op:tx_update:ok", "op:tx_update:lock_conflict", "op:tx_update:tx_not_found",
         "op:tx_update:table_not_found", "op:tx_update:column_not_found", "op:tx_delete:ok", "op:tx_delete:lock_conflict",
-        "op:tx_delete:tx_not_found", "op:insert:ok", "op:update:ok", "op:update:lock_conflict", "op:delete_rows:ok",
+        "op:tx_delete:tx_not_found", "op:tx_select:ok", "op:tx_select:tx_not_found", "op:tx_select:table_not_found",
+        "op:tx_insert:bad_input", "op:tx_insert:table_not_found", "op:tx_delete:table_not_found", "op:insert:bad_input",
+        "op:insert:table_not_found", "op:update:table_not_found", "op:update:column_not_found", "op:delete_rows:table_not_found",
+        "tx_select_by_open_tx", "tx_select_by_finished_tx", "and_condition_served_by_hash_index", "and_condition_served_by_btree_index",
+        "directed:compound_condition_lock_set", "directed:and_condition_through_index_rollback", "directed:tx_select_open_and_finished",
+        "directed:failed_statements_change_nothing", "directed:extreme_values_hash_and_btree", "op:insert:ok", "op:update:ok", "op:update:lock_conflict", "op:delete_rows:ok",
         "op:delete_rows:lock_conflict", "op:create_index:ok", "op:create_index:index_exists", "op:create_btree_index:ok",
         "op:create_btree_index:index_exists", "op:drop_index:ok", "op:drop_index:index_not_found", "op:drop_btree_index:ok",
         "op:drop_btree_index:index_not_found", "op:cleanup_expired_locks:ok", "op:cleanup_expired:ok", "op:lock_timeout:ok",
